@@ -585,7 +585,9 @@ class Protocol:
             flush-pkt.
         """
         pkt = self.read_pkt_line()
-        while pkt:
+        # Only a flush-pkt ends the sequence; an empty pkt-line ("0004") is
+        # an (empty) line like any other.
+        while pkt is not None:
             yield pkt
             pkt = self.read_pkt_line()
 
